@@ -15,7 +15,7 @@ def _trigger_args(kind, dense):
     """constructor arguments that trigger exactly `kind` (None: nothing) on a 2x2 matrix"""
     oids, sids, omd, smd = ['o1', 'o2'], ['s1', 's2'], None, None
     if kind in ('obsmdsize', 'sampmdsize'):
-        bad = pick([[{'a': 1}, {'a': 2}, {'a': 3}], [{'a': 1}], []], 'metadata-length-variant')
+        bad = pick([[{'a': 1}, {'a': 2}, {'a': 3}], [{'a': 1}], [], [None, None, None], [{}, {}, {}], [None]], 'metadata-length-variant')
         if kind == 'obsmdsize':
             return oids, sids, list(bad), smd
         return oids, sids, omd, list(bad)
@@ -61,7 +61,11 @@ def h_reaction(kind, state, site):
             if site == 'constructor':
                 if kind == 'empty':
                     args = ([], [], None, None) if triggering else (['o1', 'o2'], ['s1', 's2'], None, None)
-                    mk = (lambda: b.Table([], [], [])) if triggering else (lambda: b.Table(m(), *args))
+                    if not triggering and flag('all-zero-matrix'):
+                        import numpy as np          # a table without any count is not an empty table (it has ids on both axes)
+                        mk = lambda: b.Table(np.zeros((2, 2)), *args)      # noqa
+                    else:
+                        mk = (lambda: b.Table([], [], [])) if triggering else (lambda: b.Table(m(), *args))
                 else:
                     if triggering and kind in ('obssize', 'sampsize'):
                         # no input triggers ONLY a size kind: the duplicate-id test (shape vs number of distinct ids) fires on every
